@@ -27,7 +27,7 @@ type Collector struct {
 	Hashes       []string          `json:"nontrivial_hashes"`
 	Labels       map[string]int    `json:"labels"`
 	Samples      []json.RawMessage `json:"samples"`
-	Known        map[string]int    `json:"known"`        // known-finding signature -> times observed
+	Known        map[string]int    `json:"known"`         // known-finding signature -> times observed
 	KnownExample map[string]string `json:"known_example"` // signature -> one message
 	Excluded     map[string]int    `json:"excluded"`
 	Rule         string            `json:"rule"`
@@ -66,7 +66,7 @@ func (c *Collector) MarkNontrivial(sample any) {
 	}
 }
 
-func (c *Collector) Label(l string)          { c.Labels[l]++ }
+func (c *Collector) Label(l string) { c.Labels[l]++ }
 func (c *Collector) AddLabels(m map[string]int) {
 	for k, v := range m {
 		c.Labels[k] += v
@@ -314,6 +314,21 @@ func runOps(s *sim.Sim, ops []sim.Op) outcome {
 		}
 	}
 	return outcome{}
+}
+
+// runFixedThen runs a fixed operation list and then the generated one; the returned function gives the label
+// counts produced by the generated part alone (non-trivial rules must not be satisfied by the fixed part).
+func runFixedThen(s *sim.Sim, fixed, gen []sim.Op) (outcome, func(string) int) {
+	out := runOps(s, fixed)
+	base := map[string]int{}
+	for k, v := range s.Labels {
+		base[k] = v
+	}
+	since := func(l string) int { return s.Labels[l] - base[l] }
+	if out.V != nil {
+		return out, since
+	}
+	return runOps(s, gen), since
 }
 
 // runOpsKnown is runOps with the recorded findings made known to the simulator, so that the search
